@@ -84,6 +84,7 @@ type obs struct {
 	MemPages uint32
 	MemCRC   uint32
 	G0, G1   uint64
+	Consts   string // host view of the constant / reference globals (numeric values; funcrefs resolved like table entries)
 	Table    string // host view: per slot "-" (null), "f<idx>" (this instance's own function idx), "FOREIGN"
 	Data     string // host view of the data instances (len/crc per segment)
 	Elem     string // host view of the element instances
@@ -99,7 +100,7 @@ func (o obs) diff(p obs) (field, got, want string) {
 		a, b any
 	}
 	for _, x := range []f{{"exists", o.Exists, p.Exists}, {"instantiate", o.InstErr, p.InstErr}, {"closed", o.Closed, p.Closed},
-		{"memory.size", o.MemPages, p.MemPages}, {"memory.bytes", o.MemCRC, p.MemCRC}, {"global.g0", o.G0, p.G0}, {"global.g1", o.G1, p.G1},
+		{"memory.size", o.MemPages, p.MemPages}, {"memory.bytes", o.MemCRC, p.MemCRC}, {"global.g0", o.G0, p.G0}, {"global.g1", o.G1, p.G1}, {"globals", o.Consts, p.Consts},
 		{"table", o.Table, p.Table}, {"data-segments", o.Data, p.Data}, {"elem-segments", o.Elem, p.Elem}, {"fds", o.FDs, p.FDs},
 		{"stdout", o.Stdout, p.Stdout}, {"guest-peek", o.Peek, p.Peek}, {"guest-badcall", o.BadCall, p.BadCall}} {
 		if x.a != x.b {
@@ -225,6 +226,9 @@ func (w *world) buildEnv(rt wazero.Runtime) {
 		if g, ok := m.ExportedGlobal("g1").(api.MutableGlobal); ok {
 			g.Set(g.Get() + 0x10000)
 		}
+		if g, ok := m.ExportedGlobal("xm").(api.MutableGlobal); ok { // the caller's mutable externref global
+			g.Set(uint64(v) + 0x1000)
+		}
 		return x * 3
 	}).Export("h_refl")
 	// reflection, (ctx, i32) and (i32): no module, pure
@@ -306,6 +310,9 @@ func newWorld(c cfg, dirs *hostDirs, loneSlot int) *world {
 			fatalf("wasi: %v", err)
 		}
 		w.buildEnv(rt)
+		if _, err := rt.InstantiateWithConfig(ctx, cstBin, wazero.NewModuleConfig().WithName("cst")); err != nil {
+			fatalf("cst module: %v", err)
+		}
 		var cm [2]wazero.CompiledModule
 		for v := 0; v < 2; v++ {
 			if !need[v] {
@@ -365,6 +372,8 @@ func newWorld(c cfg, dirs *hostDirs, loneSlot int) *world {
 }
 
 // bystanderBins: the two unrelated modules of the prelude.
+var cstBin = cstModule()
+
 var bystanderBins = map[byte][]byte{'X': bystanderModule('X'), 'Y': bystanderModule('Y')}
 
 func (c cfg) preParts() (kind, assign string) {
@@ -566,6 +575,9 @@ func (w *world) checkFresh(j int, in *inst) {
 		w.absFail("instantiate", j, "fresh instance %d: global g1 = %#x, initialiser is %#x", j, g, uint64(0x1111111111111111*int64(v+1)))
 	}
 	fA := mi.Source.ImportFunctionCount // fA, fB are the first two functions of the module
+	if got, want := w.constsString(mi), wantConsts(v, fA); got != want {
+		w.absFail("instantiate", j, "fresh instance %d: globals = [%s], initialisers give [%s]", j, got, want)
+	}
 	want := fmt.Sprintf("f%d - - - ", fA)
 	switch sh {
 	case 3:
@@ -669,8 +681,12 @@ func (w *world) observe(j int, in *inst) (o obs) {
 	o.G0 = in.mod.ExportedGlobal("g0").Get()
 	o.G1 = in.mod.ExportedGlobal("g1").Get()
 	refs := func(rs []wasm.Reference) string { return w.refString(mi, rs) }
-	if len(mi.Tables) > 0 {
-		o.Table = refs(mi.Tables[0].References)
+	o.Consts = w.constsString(mi)
+	for i, t := range mi.Tables {
+		if i > 0 {
+			o.Table += "| "
+		}
+		o.Table += refs(t.References)
 	}
 	var sb strings.Builder
 	for i, d := range mi.DataInstances {
@@ -703,6 +719,73 @@ func (w *world) observe(j int, in *inst) (o obs) {
 		o.Stdout = w.stdout[w.slotOf[j]].String()
 	}
 	return
+}
+
+// constsString is the host view of the round-8 globals of an instance: numeric and externref globals by value, funcref
+// globals resolved to owner instance + function index like table entries. (Hot path: called for every observation and
+// every instantiation, hence no fmt.)
+func (w *world) constsString(mi *wasm.ModuleInstance) string {
+	b := make([]byte, 0, 256)
+	base := len(mi.Globals) - len(constGlobalNames)
+	var tmp *wasm.TableInstance
+	var tid wasm.FunctionTypeID
+	for i, n := range constGlobalNames {
+		g := mi.Globals[base+i]
+		lo, hi := g.Value()
+		b = append(append(b, n...), '=')
+		switch g.Type.ValType {
+		case wasm.ValueTypeFuncref:
+			if lo == 0 {
+				b = append(b, "- "...)
+			} else {
+				if tmp == nil {
+					tmp = &wasm.TableInstance{References: make([]wasm.Reference, 1), Type: wasm.RefTypeFuncref}
+					tid = mi.TypeIDs[mi.Source.FunctionSection[0]] // type of fA/fB: () -> i32
+				}
+				tmp.References[0] = wasm.Reference(lo)
+				switch owner, idx, bad := lookupOne(mi, tmp, tid); {
+				case bad != "":
+					b = append(append(append(b, "UNRESOLVABLE("...), bad...), ") "...)
+				case owner == mi:
+					b = append(strconv.AppendUint(append(b, 'f'), uint64(idx), 10), ' ')
+				default:
+					b = append(strconv.AppendUint(append(b, "FOREIGN:f"...), uint64(idx), 10), ' ')
+				}
+			}
+			continue
+		case wasm.ValueTypeV128:
+			b = append(strconv.AppendUint(append(b, "0x"...), lo, 16), ':')
+			lo = hi
+		}
+		b = append(strconv.AppendUint(append(b, "0x"...), lo, 16), ' ')
+	}
+	return string(b)
+}
+
+// lookupOne resolves slot 0 of a one-slot table through the engine (same answer as refString, without fmt).
+func lookupOne(mi *wasm.ModuleInstance, tmp *wasm.TableInstance, tid wasm.FunctionTypeID) (owner *wasm.ModuleInstance, idx wasm.Index, bad string) {
+	defer func() {
+		if p := recover(); p != nil {
+			bad = fmt.Sprint(p)
+		}
+	}()
+	owner, idx = mi.Engine.LookupFunction(tmp, tid, 0)
+	return
+}
+
+var wantConstsMemo sync.Map // [2]uint32{variant, fA} -> string
+
+// wantConsts is what constsString must give for a fresh instance of the variant (fA = index of the function fA).
+func wantConsts(variant int, fA uint32) string {
+	k := [2]uint32{uint32(variant), fA}
+	if s, ok := wantConstsMemo.Load(k); ok {
+		return s.(string)
+	}
+	c := constGlobalInits(variant)
+	s := fmt.Sprintf("k32=%#x k64=%#x kf32=%#x kf64=%#x kv=%#x:%#x rfA=f%d rfB=f%d rnl=- xnl=0x0 gi=%#x gfi=FOREIGN:f0 mf=f%d xm=0x0 ",
+		c.k32, c.k64, c.kf32, c.kf64, c.kvLo, c.kvHi, fA, fA+1, cstKi, fA+1)
+	wantConstsMemo.Store(k, s)
+	return s
 }
 
 // refString resolves function references through the engine (engine-neutral): owner instance and function index.
